@@ -280,7 +280,7 @@ func runCase(r *rig, idx int, c *Case, tag string) {
 		probe.SetCloseHandler(func(int, string) error { return nil })
 	}
 	// probe reader (not in stall mode)
-	if c.Mode != "stall" {
+	if c.Mode != "stall" && c.Mode != "frozen" {
 		go func() {
 			for {
 				_, data, err := probe.ReadMessage()
@@ -411,7 +411,7 @@ func runCase(r *rig, idx int, c *Case, tag string) {
 		c.Dropped = 0 // after the watch: not part of the observation
 	}
 	// is the socket really closed? (a read must fail with something else than a timeout)
-	if c.Mode == "stall" {
+	if c.Mode == "stall" || c.Mode == "frozen" {
 		deadline := time.Now().Add(1500 * time.Millisecond)
 		probe.SetReadDeadline(deadline)
 		for {
@@ -486,13 +486,17 @@ func gen(rng *lib.Rng, tier string, n int) []Case {
 	// one long scenario next to everything else: three connections with 300 s tokens joined at the
 	// start - silent, one message received at t = 1 s then quiet, a talker - must all still be
 	// joined after the first ping (54 s); thorough: after the second one too (108 s)
-	w := int64(57)
+	w := int64(62)
 	if tier == "thorough" {
 		w = 116
 	}
 	for _, m := range []string{"silent", "onemsg", "talker"} {
 		cs = append(cs, Case{Kind: "quiet", Mode: m, PhaseMs: 300, NbfOff: -1, ExpOff: 300, Pongs: true, WatchS: w})
 	}
+	// a peer that goes silent without closing - it stops reading and answering the moment it has
+	// joined (frozen client, network loss without FIN/RST): the relay must give it up when the read
+	// deadline passes, 60 s after it joined
+	cs = append(cs, Case{Kind: "quiet", Mode: "frozen", PhaseMs: 300, NbfOff: -1, ExpOff: 300, Pongs: false, WatchS: w})
 	// and across the relay's own ping: a client that answers it with a payload of its own, and one
 	// that sends heartbeat pongs and pings of its own every 5 s
 	cs = append(cs, Case{Kind: "quiet", Mode: "silent", Behave: "wrongpong", PhaseMs: 300, NbfOff: -1, ExpOff: 300, Pongs: true, WatchS: w},
@@ -540,6 +544,29 @@ func oracle(c Case, idx int, res *lib.Result) {
 	if !c.Accepted {
 		if c.Other == "" && c.Nbf <= c.TLo/sec && c.THi/sec < c.Exp {
 			bad("valid-token-refused", "a code for a currently valid token was refused")
+		}
+		return
+	}
+	if c.Mode == "frozen" {
+		// no pong ever: not before the read deadline can have passed, and then for good
+		if c.Dropped != 0 && c.Dropped < c.TLo+pongWaitNs-earlyTol && c.Dropped < E-earlyTol {
+			bad("closed-early", "dropped before the read deadline could have passed")
+		}
+		limit := c.THi + pongWaitNs + lateTol
+		if c.WatchUntil >= limit {
+			detail := ""
+			switch {
+			case c.Dropped == 0:
+				detail = fmt.Sprintf("still listed and served %.1f s after it joined", float64(c.WatchUntil-c.TLo)/1e9)
+			case c.Dropped > limit:
+				detail = fmt.Sprintf("given up only %.1f s after it joined", float64(c.Dropped-c.TLo)/1e9)
+			case !c.SockClosed:
+				detail = "removed from the hub but its socket was not closed by the relay"
+			}
+			if detail != "" {
+				res.Violate(lib.Violation{Clause: "silent-peer-not-dropped", Case: idx, Key: "silent-peer-not-dropped", Replay: c,
+					Detail: "a peer that stopped reading and answers no ping (no FIN/RST) must be given up when the read deadline passes, 60 s (+1.5 s) after joining: " + detail})
+			}
 		}
 		return
 	}
